@@ -1,5 +1,5 @@
 #!/usr/bin/env python3
-# tools_seed_prompts.py <batch-letter> — prepares one scratch worktree of /repo and one prompt file per property under /tmp/seed
+# tools_seed_prompts.py <batch-letter> [ids…] — prepares one scratch worktree of /repo and one prompt file per property under /tmp/seed
 # for independent sub-agents that write property-breaking changes.  The prompt contains the property record and the locations
 # used by earlier seeded changes, nothing else from /verif.
 import json,subprocess,os,sys
@@ -14,6 +14,7 @@ tmpl=open('/verif/seeded/PROMPT.tmpl').read()
 os.makedirs('/tmp/seed',exist_ok=True)
 for l in open('/verif/properties.jsonl'):
     p=json.loads(l); i=p['id']
+    if len(sys.argv)>2 and i not in sys.argv[2:]: continue
     open('/tmp/seed/%s.prompt.txt'%i,'w').write(tmpl.replace('@B@',b).replace('@ID@',i).replace('@PROP@',json.dumps(p,indent=1)).replace('@PREV@',"\n".join(" - "+x for x in prev.get(i,[]))))
     subprocess.run(['git','-C','/repo','worktree','add','-q','--detach','/tmp/seed/%s-%s'%(i,b),'HEAD'],check=True)
     os.makedirs('/tmp/seed/%s-%s.out'%(i,b),exist_ok=True)
